@@ -11,6 +11,7 @@ import datetime
 import itertools
 import json
 import math
+import os
 
 from ..core import pmap
 from .. import values
@@ -64,8 +65,77 @@ def check_arg(a, path):
         return "%s: string value %r" % (path, v)
     elif t == "number" and (isinstance(v, bool) or not isinstance(v, (int, float))):
         return "%s: number value %r" % (path, v)
-    elif t in ("date", "timestamp") and not isinstance(v, str):
-        return "%s: %s value %r" % (path, t, v)
+    elif t in ("date", "timestamp"):
+        import re
+
+        if not isinstance(v, str):
+            return "%s: %s value %r" % (path, t, v)
+        # a date is the day alone, a timestamp carries a time of day (readers tell them apart by the type, not by the text)
+        if t == "date" and not re.match(r"^\d{4}-\d{2}-\d{2}$", v):
+            return "%s: date value %r is not a plain day" % (path, v)
+        if t == "timestamp" and not re.match(r"^\d{4}-\d{2}-\d{2}T\d{2}:\d{2}", v):
+            return "%s: timestamp value %r has no time of day" % (path, v)
+    return None
+
+
+def ref_tree(v):
+    """Type tags a boring reference encoder gives the value (None where it has no opinion)."""
+    from twosigma.memento.reference import FunctionReference
+    from twosigma.memento.types import MementoFunctionType
+
+    if v is None:
+        return "null"
+    if isinstance(v, bool):
+        return "boolean"
+    if isinstance(v, str):
+        return "string"
+    if isinstance(v, (int, float)):
+        return "number"
+    if isinstance(v, datetime.datetime):
+        return "timestamp"
+    if isinstance(v, datetime.date):
+        return "date"
+    if isinstance(v, (MementoFunctionType, FunctionReference)):
+        return "twosigma.memento.FunctionReference"
+    if isinstance(v, (list, tuple)):
+        return ["list_result", [ref_tree(x) for x in v]]
+    if isinstance(v, dict) and all(isinstance(k, str) for k in v):
+        return ["dictionary", {k: ref_tree(x) for k, x in v.items()}]
+    return None
+
+
+def doc_tree(a):
+    t = a.get("type")
+    if t == "list_result":
+        return [t, [doc_tree(x) for x in a["value"]]]
+    if t == "dictionary":
+        return [t, {k: doc_tree(x) for k, x in a["value"].items()}]
+    return t
+
+
+def tree_mismatch(want, got, path):
+    if want is None:
+        return None
+    if isinstance(want, list):
+        if not isinstance(got, list) or got[0] != want[0]:
+            return "%s: emitted as %r, the value is a %s" % (path, got if not isinstance(got, list) else got[0], want[0])
+        if want[0] == "list_result":
+            if len(want[1]) != len(got[1]):
+                return "%s: %d elements emitted for %d" % (path, len(got[1]), len(want[1]))
+            for i, (w, g) in enumerate(zip(want[1], got[1])):
+                e = tree_mismatch(w, g, "%s[%d]" % (path, i))
+                if e:
+                    return e
+        else:
+            if set(want[1]) != set(got[1]):
+                return "%s: keys %s emitted for %s" % (path, sorted(got[1]), sorted(want[1]))
+            for k in want[1]:
+                e = tree_mismatch(want[1][k], got[1][k], "%s.%s" % (path, k))
+                if e:
+                    return e
+        return None
+    if got != want:
+        return "%s: emitted with type %r, the value is a %s" % (path, got if not isinstance(got, list) else got[0], want)
     return None
 
 
@@ -165,6 +235,8 @@ def memento_case(spec):
     except Exception as e:
         out["violations"].append(("construct|%s" % type(e).__name__, "cannot build the reference: %r" % (e,), art))
         return out
+    want_tree = {"args": [ref_tree(allv[n]) for n in argnames], "kwargs": {k: ref_tree(allv[v]) for k, v in kwnames},
+                 "contextArgs": {k: ref_tree(allv[v]) for k, v in ctxnames}}
     # the caller goes on using (and changing) the lists / dicts it passed: what is recorded is a snapshot
     for nme in list(argnames) + [v for _, v in kwnames] + [v for _, v in ctxnames]:
         if isinstance(allv[nme], list):
@@ -210,6 +282,20 @@ def memento_case(spec):
     e = check_wire(parsed)
     if e:
         out["violations"].append(("wire-format|%s" % e.split(":")[0][:50], "wire format: %s" % e, art))
+        return out
+    top = parsed["invocationMetadata"]["fnReferenceWithArgs"]
+    npart = len(top["args"] or []) - len(want_tree["args"])  # partial arguments come first
+    e = None
+    for i, w in enumerate(want_tree["args"]):
+        e = e or tree_mismatch(w, doc_tree(top["args"][npart + i]), "args[%d]" % i)
+    for fld in ("kwargs", "contextArgs"):
+        for k, w in want_tree[fld].items():
+            if k in (top[fld] or {}):
+                e = e or tree_mismatch(w, doc_tree(top[fld][k]), "%s.%s" % (fld, k))
+            else:
+                e = e or "%s.%s is missing from the document" % (fld, k)
+    if e:
+        out["violations"].append(("wire-format|type-of-value|%s" % e.split(": ", 1)[1][:40], "wire format: %s" % e, art))
         return out
     try:
         m1 = MementoCodec.decode_memento(json.loads(text))
@@ -353,6 +439,113 @@ def runner_documents(_):
     return out
 
 
+RV_SRC = '''
+import twosigma.memento as m
+
+@m.memento_function(cluster="vfc")
+def leaf(x):
+    return x + %d
+
+@m.memento_function(cluster="vfc")
+def caller(x, fn=None):
+    return leaf(x) * 2
+'''
+
+
+def _rv_child(root, hist):
+    """Decoding in a process in which functions get new versions: after every event every stored document is decoded. A
+    reference to the CURRENT version of a function decodes to the live function (equal to fn_reference(), not a stub), a
+    reference to a version that is gone decodes to an external stub; and decode -> encode gives the document back."""
+    import importlib
+    import sys
+
+    import twosigma.memento as m
+    from twosigma.memento.serialization import MementoCodec
+    from .c15 import mk_backend, use
+
+    os.makedirs(os.path.join(root, "vfrv"))
+    open(os.path.join(root, "vfrv", "__init__.py"), "w").close()
+    n = [1]
+
+    def write():
+        with open(os.path.join(root, "vfrv", "lib.py"), "w") as f:
+            f.write(RV_SRC % n[0])
+
+    write()
+    sys.path.insert(0, root)
+    lib = importlib.import_module("vfrv.lib")
+    use(mk_backend("fs", os.path.join(root, "s")))
+    res = []
+    for ev in hist:
+        if ev == "call":
+            lib.caller(1)
+        elif ev == "call_fnarg":
+            lib.caller(2, fn=lib.leaf)
+        elif ev == "edit":
+            n[0] += 1
+            write()
+            importlib.invalidate_caches()
+            os.utime(os.path.join(root, "vfrv", "lib.py"), (n[0] * 1000, n[0] * 1000))
+            lib = importlib.reload(lib)
+        elif ev == "reopen":
+            use(mk_backend("fs", os.path.join(root, "s")))
+        cur = {f.fn_reference().qualified_name: f.fn_reference() for f in (lib.leaf, lib.caller)}
+        bad = None
+        for dp, dn, fns in os.walk(os.path.join(root, "s")):
+            for fname in sorted(fns):
+                if bad or not fname.endswith(".memento.json") or ".versions" not in dp:
+                    continue
+                text = open(os.path.join(dp, fname)).read()
+                try:
+                    mm = MementoCodec.decode_memento(json.loads(text))
+                except Exception as e:
+                    bad = ("decode-raised", "decoding a stored memento raised %r" % (e,))
+                    continue
+                refs = [mm.invocation_metadata.fn_reference_with_args.fn_reference] + [i.fn_reference for i in mm.invocation_metadata.invocations] \
+                    + list(mm.function_dependencies)
+                for a in list(mm.invocation_metadata.fn_reference_with_args.kwargs.values()):
+                    if hasattr(a, "qualified_name"):
+                        refs.append(a)
+                for r in refs:
+                    live = cur.get(r.qualified_name)
+                    if live is not None and (r.external or r != live):
+                        bad = ("current-version-decodes-as-stub", "%s is the current version but its decoded reference is external=%s, equal to fn_reference(): %s"
+                               % (r.qualified_name, r.external, r == live))
+                    elif live is None and not r.external:
+                        bad = ("gone-version-decodes-as-live", "%s no longer exists but its decoded reference is not an external stub" % r.qualified_name)
+                if bad:
+                    continue
+                d1, d2 = json.loads(text), MementoCodec.encode_memento(mm)
+                d2 = json.loads(json.dumps(d2))
+                for dd in (d1, d2):
+                    dd["functionDependencies"] = sorted(dd["functionDependencies"] or [], key=lambda r: json.dumps(r, sort_keys=True))
+                if d1 != d2:
+                    where = _first_diff(d1, d2)
+                    bad = ("re-encode-differs", "decode then encode of a stored memento changes the document at %s: %r -> %r" % where)
+        res.append((ev, bad))
+        if bad:
+            break
+    return res
+
+
+def rv_case(hist):
+    from .. import farm
+    from ..core import HarnessError, scratch_dir, rm
+
+    root = scratch_dir("c11rv")
+    out = {"evaluations": 1, "states": 1, "transitions": len(hist), "traces": 1, "violations": [], "outcomes": ["rv:%s" % (hist,)]}
+    try:
+        res = farm.fork_call(_rv_child, root, hist)
+    except farm.ChildFailed as e:
+        raise HarnessError("re-version child failed for %s: %s" % (hist, e))
+    finally:
+        rm(root)
+    for ev, bad in res:
+        if bad:
+            out["violations"].append(("reversioned-in-process|%s|%s" % (ev, bad[0]), bad[1] + "\nhistory: %s" % (list(hist),), {"rv": list(hist)}))
+    return out
+
+
 def run(ctx):
     ctx.rule = ("every value of the argument alphabet (depth %d) as positional / keyword / context argument; function references "
                 "plain, with positional and keyword partials (incl. non-ASCII, aware datetime, nested function reference); x "
@@ -369,12 +562,29 @@ def run(ctx):
     rd = runner_documents(None)
     ctx.merge([rd])
     ctx.extra["runner_written_documents"] = rd["evaluations"]
+    import itertools
+
+    rvd = 5 if ctx.tier == "thorough" else 4
+    rvh = [h for L in range(2, rvd + 1) for h in itertools.product(("call", "call_fnarg", "edit", "reopen"), repeat=L)
+           if "edit" in h and h[0] != "reopen" and any(e.startswith("call") for e in h)]
+    ctx.merge(pmap(rv_case, rvh, chunksize=4))
+    ctx.extra["reversioned_in_process_histories"] = len(rvh)
+    ctx.rule += (" Re-versioned in the running process: all histories to length %d over {call, call with a function-valued argument, edit + reload "
+                 "(new version of both functions), new backend object}; after every event every stored document is decoded: references to "
+                 "current versions decode to the live functions, references to versions that are gone to external stubs, decode -> encode "
+                 "gives the document back." % rvd)
     ctx.sample({"spec": sp[0]})
     ctx.sample({"spec": sp[-1]})
     ctx.extra["mementos"] = len(sp)
 
 
 def replay(ctx, art):
+    if "rv" in art["artefact"]:
+        r = rv_case(tuple(art["artefact"]["rv"]))
+        for v in r["violations"]:
+            print(v[0], "\n", v[1])
+        print("REPLAY property=C11 result=%s" % bool(r["violations"]))
+        return 1 if r["violations"] else 0
     spec = art["artefact"]["spec"]
 
     def tup(x):
